@@ -27,8 +27,8 @@ Definition mk_orc (floats ints : list (list Z * option Z)) (fmt : list (Z * list
     (fun tok => match assoc tok ints with Some r => r | None => None end)
     (fun x => fmt_lookup x fmt).
 
-Fixpoint feed (cf : cfg F) (orc : oracles F) (w : world (T:=F)) (i : Z) (bs : list Z)
-  : world (T:=F) * list (Z * list Z) :=
+Fixpoint feed (cf : cfg F) (orc : oracles F) (w : world F) (i : Z) (bs : list Z)
+  : world F * list (Z * list Z) :=
   match bs with
   | [] => (w, [])
   | b :: r =>
@@ -44,7 +44,7 @@ Fixpoint feed (cf : cfg F) (orc : oracles F) (w : world (T:=F)) (i : Z) (bs : li
 Definition obs_eqb (a b : list (Z * list Z)) : bool :=
   list_eqb (fun x y => Z.eqb (fst x) (fst y) && zlist_eqb (snd x) (snd y)) a b.
 
-Fixpoint run_ops (cf : cfg F) (orc : oracles F) (w : world (T:=F)) (ops : list mop) : world (T:=F) * bool :=
+Fixpoint run_ops (cf : cfg F) (orc : oracles F) (w : world F) (ops : list mop) : world F * bool :=
   match ops with
   | [] => (w, true)
   | MOp tick now draws spl ptok bytes obs :: r =>
@@ -99,7 +99,7 @@ Definition ok (c : mcase) : bool :=
   end.
 
 (* what the model produced, for the replay file of a mismatching case *)
-Fixpoint run_show (cf : cfg F) (orc : oracles F) (w : world (T:=F)) (ops : list mop)
+Fixpoint run_show (cf : cfg F) (orc : oracles F) (w : world F) (ops : list mop)
   : list (list (Z * list Z)) :=
   match ops with
   | [] => []
